@@ -79,6 +79,29 @@ FamilyProps(fam) ==
       [] OTHER -> {}
 
 ----------------------------------------------------------------------------
+\* violations of the bit-for-bit clause of C15 for a batch query on a related object
+RelViolations(ev, o, res, twoD) ==
+    IF ~Has(o, "rel") \/ o.rel.a \notin DOMAIN objs \/ ~Has(objs[o.rel.a], "last") THEN <<>>
+    ELSE LET A == objs[o.rel.a]
+             la == A.last
+             r == o.rel
+             nq == Len(ev.q.v)
+             L == o.L
+             paired == Len(la.q) = nq /\ Len(la.r) = Len(res.v) /\
+                       \A i \in 1..nq :
+                           LET qa == QDecode(o.el, la.q[i]) qb == QDecode(o.el, ev.q.v[i]) IN
+                           IsFin(qa) /\ IsFin(qb) /\ qb = QAdd(QMul(r.c, qa), r.s) /\
+                           (twoD => LET ya == QDecode(o.el, la.q2[i]) yb == QDecode(o.el, ev.q2.v[i]) IN
+                                        IsFin(ya) /\ IsFin(yb) /\ yb = QAdd(QMul(r.c2, ya), r.s2))
+             badK == SelectSeq([k \in 1..Len(res.v) |-> k],
+                               LAMBDA k : LET va == QDecode(o.el, la.r[k]) vb == QDecode(o.el, res.v[k])
+                                          IN IsFin(va) /\ IsFin(vb) /\ vb # QMul(r.d, va))
+         IN IF ~paired THEN <<>>
+            ELSE [i \in 1..Len(badK) |->
+                     V({"C15"}, "C15|" \o o.st.k \o "|exact-unit-change-not-bit-identical",
+                       <<"elem", badK[i], "a", la.r[badK[i]], "b", res.v[badK[i]], "c", r.c, "s", r.s, "d", r.d>>)]
+
+----------------------------------------------------------------------------
 \* C19: every recorded unchecked cast relabels identical types
 CastViolations(ev) ==
     LET cs == ev.casts
@@ -383,12 +406,14 @@ DoQ1(ev) ==
         classes == <<"Q1|" \o sk \o "|" \o ev.en \o "|" \o ev.out, "RANK|" \o ev.en \o "|" \o ev.qtag \o "|q" \o ToString(Len(ev.q.s)) \o "|d" \o ToString(Len(o.dshape))>>
                    \o CastClasses(ev)
                    \o (IF judgeEl THEN [k \in 1..N |-> "EL|" \o sk \o "|" \o o.el \o "|" \o J[k].class] ELSE <<>>)
-    IN  /\ bad' = bad \o Cap(vOut \o vShape \o vEl \o vMemo \o vBuf \o vCust \o vCast)
+        vRel == IF judge /\ vShape = <<>> /\ ev.en = "array" THEN RelViolations(ev, o, res, FALSE) ELSE <<>>
+        keepLast == judge /\ vShape = <<>> /\ ev.en = "array"
+    IN  /\ bad' = bad \o Cap(vOut \o vShape \o vEl \o vMemo \o vBuf \o vCust \o vCast \o vRel)
         /\ memoP' = memoP \cup pairs
         /\ memoK' = memoK \cup {<<p[1], p[2]>> : p \in pairs}
-        /\ cov' = Bump(cov, classes)
+        /\ cov' = Bump(cov, classes \o (IF vRel # <<>> \/ (keepLast /\ Has(o, "rel")) THEN <<"RELQ|" \o sk>> ELSE <<>>))
         /\ head' = IF judgeEl THEN HeadUp(head, hk, hv) ELSE head
-        /\ UNCHANGED objs
+        /\ objs' = IF keepLast THEN [objs EXCEPT ![ev.id] = [last |-> [q |-> ev.q.v, r |-> res.v]] @@ o] ELSE objs
 
 ----------------------------------------------------------------------------
 \* 2-D build and query events
@@ -539,12 +564,14 @@ DoQ2(ev) ==
         classes == <<"Q2|" \o sk \o "|" \o ev.en \o "|" \o ev.out, "RANK|" \o ev.en \o "|" \o ev.qtag \o "|q" \o ToString(Len(ev.q.s)) \o "|d" \o ToString(Len(o.dshape))>>
                    \o CastClasses(ev)
                    \o (IF judgeEl THEN [k \in 1..N |-> "EL|" \o sk \o "|" \o o.el \o "|" \o J[k].class] ELSE <<>>)
-    IN  /\ bad' = bad \o Cap(vOut \o vShape \o vEl \o vMemo \o vBuf \o vCust \o vCast)
+        vRel == IF judge /\ vShape = <<>> /\ ev.en = "array" THEN RelViolations(ev, o, res, TRUE) ELSE <<>>
+        keepLast == judge /\ vShape = <<>> /\ ev.en = "array"
+    IN  /\ bad' = bad \o Cap(vOut \o vShape \o vEl \o vMemo \o vBuf \o vCust \o vCast \o vRel)
         /\ memoP' = memoP \cup pairs
         /\ memoK' = memoK \cup {<<p[1], p[2]>> : p \in pairs}
-        /\ cov' = Bump(cov, classes)
+        /\ cov' = Bump(cov, classes \o (IF vRel # <<>> \/ (keepLast /\ Has(o, "rel")) THEN <<"RELQ|" \o sk>> ELSE <<>>))
         /\ head' = IF judgeEl THEN HeadUp(head, hk, hv) ELSE head
-        /\ UNCHANGED objs
+        /\ objs' = IF keepLast THEN [objs EXCEPT ![ev.id] = [last |-> [q |-> ev.q.v, q2 |-> ev.q2.v, r |-> res.v]] @@ o] ELSE objs
 
 ----------------------------------------------------------------------------
 \* direct calls of the public helpers and accessors
@@ -608,6 +635,101 @@ DoAcc(ev) ==
         /\ cov' = Bump(cov, <<"ACC|" \o ev.what \o "|" \o o.kind>>)
         /\ UNCHANGED <<objs, memoP, memoK, head>>
 
+DoMonoBatch(ev) ==
+    LET its == ev.items
+        judge(it) ==
+            LET v == DecSeq(it.el, it.v)
+                n == Len(v)
+                rels == [i \in 1..(n - 1) |-> RelOf(v[i], v[i + 1])]
+                hasNaN == \E i \in 1..n : IsNaN(v[i])
+                want == MonoClass(rels)
+            IN  [bad |-> IF it.out = "Panic" THEN "Panic"
+                         ELSE IF hasNaN THEN (IF it.out \in {"Rising:1", "Rising:0"} THEN "NaN-called-rising" ELSE "")
+                         ELSE IF it.out # want THEN "misclassified" ELSE "",
+                 class |-> "MONO|" \o it.el \o "|" \o it.lay \o "|" \o (IF hasNaN THEN "NaN" ELSE want) \o (IF n - 1 > 9 THEN "|long" ELSE ""),
+                 want |-> want]
+        J == [i \in 1..Len(its) |-> judge(its[i])]
+        badI == SelectSeq([i \in 1..Len(its) |-> i], LAMBDA i : J[i].bad # "")
+        vv == [k \in 1..Len(badI) |-> V({"C12"}, "C12|monotonic_prop|" \o J[badI[k]].bad, <<its[badI[k]].v, its[badI[k]].out, J[badI[k]].want>>)]
+    IN  /\ bad' = bad \o Cap(vv)
+        /\ cov' = Bump(cov, [i \in 1..Len(its) |-> J[i].class])
+        /\ UNCHANGED <<objs, memoP, memoK, head>>
+
+DoLowerBatch(ev) ==
+    LET x == DecSeq(ev.el, ev.x)
+        n == Len(x)
+        pre == StrictRising(x) /\ AllFin(x)
+        its == ev.items
+        judge(it) ==
+            LET q == QDecode(ev.el, it.q)
+            IN  [bad |-> IF ~pre \/ IsNaN(q) THEN ""
+                         ELSE IF it.out = "Panic" THEN "Panic"
+                         ELSE IF ~IsBracket(x, q, it.res + 1) THEN "wrong-interval" ELSE "",
+                 class |-> "LOWER|" \o ev.el \o "|" \o it.path \o "|" \o
+                           (IF IsNaN(q) THEN "nan" ELSE IF NLe(q, x[1]) THEN "below" ELSE IF NLe(x[n], q) THEN "above" ELSE "inside")
+                           \o (IF it.guess = n - 1 THEN "|guess-last" ELSE "")]
+        J == [i \in 1..Len(its) |-> judge(its[i])]
+        badI == SelectSeq([i \in 1..Len(its) |-> i], LAMBDA i : J[i].bad # "")
+        vv == [k \in 1..Len(badI) |-> V({"C11"}, "C11|get_lower_index|" \o J[badI[k]].bad,
+                                          <<IF n <= 12 THEN ev.x ELSE <<"len", n>>, its[badI[k]].q, its[badI[k]].res, its[badI[k]].pm>>)]
+    IN  /\ bad' = bad \o Cap(vv)
+        /\ cov' = Bump(cov, [i \in 1..Len(its) |-> J[i].class] \o <<"LOWERLEN|" \o (IF n <= 40 THEN "le40" ELSE IF n <= 1000 THEN "le1000" ELSE "gt1000")>>)
+        /\ UNCHANGED <<objs, memoP, memoK, head>>
+
+\* constructors / build on data of too low rank (C10: never a panic; build reports ShapeError)
+DoBLow(ev) ==
+    LET want == IF ev.what = "2D-rank1-static-new" THEN "Ok" ELSE "Err:ShapeError"
+        vv == IF ev.out = "Panic" THEN <<V({"C10"}, "C10|constructor|Panic|" \o ev.what, <<ev.msg>>)>>
+              ELSE IF ev.out # want THEN <<V({"C10"}, "C10|lowrank|wrong-outcome|" \o ev.what, <<ev.out, ev.msg>>)>>
+              ELSE <<>>
+    IN  /\ bad' = bad \o vv
+        /\ cov' = Bump(cov, <<"BLOW|" \o ev.what \o "|" \o ev.out>>)
+        /\ UNCHANGED <<objs, memoP, memoK, head>>
+
+(***************************************************************************)
+(* C15: object b is declared to be object a in other units:                 *)
+(*   x_b = c*x_a + s  (c a positive power of two), data_b = d * data_a      *)
+(*   (d = +-2^k), boundary derivative values converted.  The claim is       *)
+(*   verified exactly before it is used.                                    *)
+(***************************************************************************)
+IsPow2(c) == c # Q0 /\ \E k \in -64..64 : QAbs(c) = QPow2(k)
+
+ScaledSide(sa, sb, c, d) ==
+    /\ sa.k = sb.k
+    /\ CASE sa.k = "FirstDeriv" -> sb.v = QDiv(QMul(sa.v, d), c)
+         [] sa.k = "SecondDeriv" -> sb.v = QDiv(QMul(sa.v, d), QMul(c, c))
+         [] OTHER -> TRUE
+
+DoRel(ev) ==
+    IF ev.a \notin DOMAIN objs \/ ev.b \notin DOMAIN objs
+    THEN /\ cov' = Bump(cov, <<"REL|orphan">>) /\ UNCHANGED <<objs, memoP, memoK, bad, head>>
+    ELSE
+    LET A == objs[ev.a]
+        B == objs[ev.b]
+        el == A.el
+        c == QDecode(el, ev.c)
+        sft == QDecode(el, ev.s)
+        d == QDecode(el, ev.d)
+        twoD == A.kind = "2D"
+        c2 == IF twoD THEN QDecode(el, ev.c2) ELSE Q1
+        s2 == IF twoD THEN QDecode(el, ev.s2) ELSE Q0
+        okX == Len(A.x) = Len(B.x) /\ \A i \in 1..Len(A.x) : B.x[i] = QAdd(QMul(c, A.x[i]), sft)
+        okY == IF twoD THEN (Len(A.y) = Len(B.y) /\ \A i \in 1..Len(A.y) : B.y[i] = QAdd(QMul(c2, A.y[i]), s2)) ELSE TRUE
+        okD == IF twoD
+               THEN A.dshape = B.dshape /\ \A j \in 1..A.L : \A a \in 1..A.nx : \A b \in 1..A.ny :
+                        (IsFin(A.z[j][a][b]) => B.z[j][a][b] = QMul(d, A.z[j][a][b]))
+               ELSE A.dshape = B.dshape /\ \A j \in 1..A.L : \A i \in 1..A.n :
+                        (IsFin(A.y[j][i]) => B.y[j][i] = QMul(d, A.y[j][i]))
+        okS == A.st.k = B.st.k /\ A.st.ex = B.st.ex /\
+               (A.st.k = "Spline" => \A j \in 1..A.L :
+                    A.bcs[j].per = B.bcs[j].per /\ ScaledSide(A.bcs[j].l, B.bcs[j].l, c, d) /\ ScaledSide(A.bcs[j].r, B.bcs[j].r, c, d))
+        okF == IsPow2(c) /\ QSign(c) > 0 /\ IsPow2(d) /\ IsPow2(c2) /\ QSign(c2) > 0
+        rel == [a |-> ev.a, c |-> c, s |-> sft, d |-> d, c2 |-> c2, s2 |-> s2]
+    IN  /\ Assert(okX /\ okY /\ okD /\ okS /\ okF, <<"harness error: Rel claim does not hold", l, okX, okY, okD, okS, okF>>)
+        /\ objs' = [objs EXCEPT ![ev.b] = [rel |-> rel] @@ B]
+        /\ cov' = Bump(cov, <<"REL|" \o A.st.k \o (IF sft = Q0 /\ s2 = Q0 THEN "|scale" ELSE "|shift") \o (IF QSign(d) < 0 THEN "|neg" ELSE "|pos")>>)
+        /\ UNCHANGED <<memoP, memoK, bad, head>>
+
 ----------------------------------------------------------------------------
 DoReset(ev) ==
     /\ objs' = <<>>
@@ -632,6 +754,10 @@ Step ==
           [] ev.ev = "B1" -> DoB1(ev)
           [] ev.ev = "Q1" -> DoQ1(ev)
           [] ev.ev = "Mono" -> DoMono(ev)
+          [] ev.ev = "MonoBatch" -> DoMonoBatch(ev)
+          [] ev.ev = "LowerBatch" -> DoLowerBatch(ev)
+          [] ev.ev = "BLow" -> DoBLow(ev)
+          [] ev.ev = "Rel" -> DoRel(ev)
           [] ev.ev = "Lower" -> DoLower(ev)
           [] ev.ev = "Acc" -> DoAcc(ev)
           [] ev.ev = "B2" -> DoB2(ev)
